@@ -77,7 +77,7 @@ func c01Compare(c *mon.Ctx, s *model.Schema, text string, built *builtSchema, v 
 			c.Count("documents also validated after Check() and Len() on the Document object", 1)
 			if pre := built.validateChecked(docText); pre.Verdict() != want.String() {
 				c.Violate("validate-checked", c01Case{Schema: text, OptKeys: s.OptKeys, Doc: docText}, want.String(), pre.String(),
-					"Validate verdict changes when the Document was Check()ed before ("+class+")")
+					"Validate verdict changes when the Document object was used before (Check, Len, or validated against another schema) ("+class+")")
 			}
 		}
 		return
